@@ -127,8 +127,41 @@ func Load(root string, tests bool) *Prog {
 		}
 		return a.String() < b.String()
 	})
+	p.canonicaliseComparisons()
 	p.computeForwarders()
 	return p
+}
+
+// canonicaliseComparisons puts the constant operand of every comparison (and of every commutative arithmetic
+// operation) of the module's functions on the right: `1 == x` becomes `x == 1`, `0 < n` becomes `n > 0`. The rules then
+// need to know one spelling only. Operands are only swapped within the instruction, so referrer lists stay valid.
+func (p *Prog) canonicaliseComparisons() {
+	for _, f := range p.ModFns {
+		eachInstr(f, func(i ssa.Instruction) {
+			bo, ok := i.(*ssa.BinOp)
+			if !ok {
+				return
+			}
+			if _, xc := bo.X.(*ssa.Const); !xc {
+				return
+			}
+			if _, yc := bo.Y.(*ssa.Const); yc {
+				return
+			}
+			switch bo.Op {
+			case token.EQL, token.NEQ, token.ADD, token.MUL, token.AND, token.OR, token.XOR:
+				bo.X, bo.Y = bo.Y, bo.X
+			case token.LSS:
+				bo.X, bo.Y, bo.Op = bo.Y, bo.X, token.GTR
+			case token.GTR:
+				bo.X, bo.Y, bo.Op = bo.Y, bo.X, token.LSS
+			case token.LEQ:
+				bo.X, bo.Y, bo.Op = bo.Y, bo.X, token.GEQ
+			case token.GEQ:
+				bo.X, bo.Y, bo.Op = bo.Y, bo.X, token.LEQ
+			}
+		})
+	}
 }
 
 // Thin forwarders: a function or method whose whole body is one call to a standard-library function with its own
